@@ -47,6 +47,24 @@ def sumPredictors (ps : List Predictor) : Predictor := fun q =>
     let first ← p q
     rest.foldlM (fun acc pk => do pure (dadd acc (← pk q))) first
 
+/-! Primitives the statement-by-statement translation of `Chain.fit` / `Chain.predict` (Gen/Chain.lean) is written in.  A fitted step is
+    seen through what `fit` left in it: its predictor, if it has a `predict` method. -/
+/-- One accumulated component: the integer `0` it starts as (`none`) or an array. -/
+abbrev Acc := Option (List Rat)
+/-- `[0 for i in range(n)]`. -/
+def zerosAcc (n : Nat) : List Acc := List.replicate n none
+/-- `acc + pred` (`0 + array` is the array; arrays add element by element). -/
+def addAcc (a : Acc) (p : List Rat) : Acc :=
+  match a with | none => some p | some x => some (List.zipWith (· + ·) x p)
+/-- `result[i]` (`IndexError` when out of range). -/
+def getAcc (r : List Acc) (i : Nat) : Except Err Acc :=
+  match r[i]? with | some v => .ok v | none => .error .other
+/-- `result[i] = v` (the index was just read, so it exists). -/
+def setAcc (r : List Acc) (i : Nat) (v : Acc) : List Acc := r.set i v
+/-- `len(result)` where `result` may still be `None` (`TypeError`: no step could predict). -/
+def lenAccE (r : Option (List Acc)) : Except Err (List Acc) :=
+  match r with | some x => .ok x | none => .error .typeError
+
 /-- A chain used as a gridder (fit then predict). -/
 def chainFit (steps : List Step) : Rows → Except Err Predictor := fun r => do
   let (_, ps) ← chainThread steps r
